@@ -414,6 +414,9 @@ func (g *OpGen) Next(m *Model) Op {
 		if r.Intn(3) == 0 {
 			op.D = int64(1 + r.Intn(3)) // the caller stops iterating early
 		}
+		if m != nil && cfg.withExpiry() && r.Intn(4) == 0 {
+			op.D2 = g.genAdvance(m) // the loop body moves the clock after the first element
+		}
 	case "runexec":
 		op.D = int64(r.Intn(4)) - 1 // -1: run everything that is queued
 		if op.D == 0 {
